@@ -290,3 +290,119 @@ def c02(archs, types=FTYPES, elementwise_only=False):
             ks.append(mk('C02', 'frexp_m', 'v', 'v', 'xsimd::frexp(a, e)', ty, arch, pre='%s e;' % bi))
             ks.append(mk('C02', 'frexp_e', 'v', 'v', 'e', ty, arch, pre='%s e; (void)xsimd::frexp(a, e);' % bi, rty=it))
     return ks
+
+
+# ---------------------------------------------------------------- C06 conversions
+def c06(archs, tier='quick'):
+    ks = []
+    for arch in archs:
+        ca = gen.cpp_arch(arch)
+        for f in ATYPES:
+            wf = TYPES[f][1]; cf_ = TYPES[f][0]
+            for t in ATYPES:
+                wt = TYPES[t][1]; ct = TYPES[t][0]
+                if f != t and wf == wt:
+                    ks.append(Kernel('C06', 'batch_cast', f, arch, [('v', f)], ('v', t), 'xsimd::batch_cast<%s>(a)' % ct, variant=t, meta={'to': t, 'from': f}))
+                if f != t:
+                    ks.append(Kernel('C06', 'bitwise_cast', f, arch, [('v', f)], ('v', t), 'xsimd::bitwise_cast<%s>(a)' % ct, variant=t, meta={'to': t, 'from': f}))
+                    ks.append(Kernel('C06', 'bitwise_cast_rt', f, arch, [('v', f)], ('v', f), 'xsimd::bitwise_cast<%s>(xsimd::bitwise_cast<%s>(a))' % (cf_, ct), variant=t, meta={'to': t, 'from': f}))
+                    # converting loads / stores: batch<To> from From* ; To* from batch<From>
+                    for mode, tag in (('aligned', 'al'), ('unaligned', 'un')):
+                        ks.append(Kernel('C06', 'load_as_' + tag, t, arch, [('q', f)], ('v', t), 'xsimd::load_as<%s, %s>(a, xsimd::%s_mode())' % (ct, ca, mode),
+                                         variant=f, meta={'to': t, 'from': f, 'aligned': mode == 'aligned'}))
+                        ks.append(Kernel('C06', 'store_as_' + tag, f, arch, [('p', t), ('v', f)], ('void', None), 'xsimd::store_as(a, b, xsimd::%s_mode());' % mode,
+                                         variant=t, meta={'to': t, 'from': f, 'aligned': mode == 'aligned'}))
+                    ks.append(Kernel('C06', 'broadcast_as', t, arch, [('T', f)], ('v', t), 'xsimd::broadcast_as<%s, %s>(a)' % (ct, ca), variant=f, meta={'to': t, 'from': f}))
+            if TYPES[f][3] == 'fp':
+                ks.append(Kernel('C06', 'to_int', f, arch, [('v', f)], ('v', IT[wf]), 'xsimd::to_int(a)', meta={'to': IT[wf], 'from': f}))
+            elif TYPES[f][2] and wf >= 32:
+                ft = 'f32' if wf == 32 else 'f64'
+                ks.append(Kernel('C06', 'to_float', f, arch, [('v', f)], ('v', ft), 'xsimd::to_float(a)', meta={'to': ft, 'from': f}))
+    return ks
+
+
+# ---------------------------------------------------------------- C17 scalar overloads
+C17_INT = [
+    ('add', 'TT', 'xsimd::add(a, b)'), ('sub', 'TT', 'xsimd::sub(a, b)'), ('mul', 'TT', 'xsimd::mul(a, b)'),
+    ('div', 'TT', 'xsimd::div(a, b)'), ('mod', 'TT', 'xsimd::mod(a, b)'), ('neg', 'T', 'xsimd::neg(a)'), ('abs', 'T', 'xsimd::abs(a)'),
+    ('min', 'TT', 'xsimd::min(a, b)'), ('max', 'TT', 'xsimd::max(a, b)'), ('sadd', 'TT', 'xsimd::sadd(a, b)'), ('ssub', 'TT', 'xsimd::ssub(a, b)'),
+    ('avg', 'TT', 'xsimd::avg(a, b)'), ('avgr', 'TT', 'xsimd::avgr(a, b)'), ('incr', 'T', 'xsimd::incr(a)'), ('decr', 'T', 'xsimd::decr(a)'),
+    ('incr_if', 'Tb', 'xsimd::incr_if(a, b)'), ('decr_if', 'Tb', 'xsimd::decr_if(a, b)'),
+    ('and', 'TT', 'xsimd::bitwise_and(a, b)'), ('or', 'TT', 'xsimd::bitwise_or(a, b)'), ('xor', 'TT', 'xsimd::bitwise_xor(a, b)'),
+    ('not', 'T', 'xsimd::bitwise_not(a)'), ('andnot', 'TT', 'xsimd::bitwise_andnot(a, b)'),
+    ('shl', 'Ts', 'xsimd::bitwise_lshift(a, b)'), ('shr', 'Ts', 'xsimd::bitwise_rshift(a, b)'),
+    ('rotl', 'Ts', 'xsimd::rotl(a, b)'), ('rotr', 'Ts', 'xsimd::rotr(a, b)'),
+    ('fma', 'TTT', 'xsimd::fma(a, b, c)'), ('fms', 'TTT', 'xsimd::fms(a, b, c)'), ('fnma', 'TTT', 'xsimd::fnma(a, b, c)'), ('fnms', 'TTT', 'xsimd::fnms(a, b, c)'),
+    ('clip', 'TTT', 'xsimd::clip(a, b, c)'), ('select', 'bTT', 'xsimd::select(a, b, c)'),
+]
+C17_CMP = [('eq', 'xsimd::eq(a, b)'), ('ne', 'xsimd::neq(a, b)'), ('lt', 'xsimd::lt(a, b)'), ('le', 'xsimd::le(a, b)'), ('gt', 'xsimd::gt(a, b)'), ('ge', 'xsimd::ge(a, b)')]
+C17_FP = [
+    ('add', 'TT', 'xsimd::add(a, b)'), ('sub', 'TT', 'xsimd::sub(a, b)'), ('mul', 'TT', 'xsimd::mul(a, b)'), ('div', 'TT', 'xsimd::div(a, b)'),
+    ('neg', 'T', 'xsimd::neg(a)'), ('abs', 'T', 'xsimd::abs(a)'), ('min', 'TT', 'xsimd::min(a, b)'), ('max', 'TT', 'xsimd::max(a, b)'),
+    ('incr', 'T', 'xsimd::incr(a)'), ('decr', 'T', 'xsimd::decr(a)'), ('incr_if', 'Tb', 'xsimd::incr_if(a, b)'), ('decr_if', 'Tb', 'xsimd::decr_if(a, b)'),
+    ('and', 'TT', 'xsimd::bitwise_and(a, b)'), ('or', 'TT', 'xsimd::bitwise_or(a, b)'), ('xor', 'TT', 'xsimd::bitwise_xor(a, b)'),
+    ('not', 'T', 'xsimd::bitwise_not(a)'), ('andnot', 'TT', 'xsimd::bitwise_andnot(a, b)'),
+    ('fma', 'TTT', 'xsimd::fma(a, b, c)'), ('fms', 'TTT', 'xsimd::fms(a, b, c)'), ('fnma', 'TTT', 'xsimd::fnma(a, b, c)'), ('fnms', 'TTT', 'xsimd::fnms(a, b, c)'),
+    ('clip', 'TTT', 'xsimd::clip(a, b, c)'), ('select', 'bTT', 'xsimd::select(a, b, c)'),
+    ('avg', 'TT', 'xsimd::avg(a, b)'), ('avgr', 'TT', 'xsimd::avgr(a, b)'),
+]
+# batch spellings used by the scalar-vs-lane differential (BA, BB_, BC = broadcast operands)
+C17_DIFF = {
+    'add': 'BA + BB_', 'sub': 'BA - BB_', 'mul': 'BA * BB_', 'div': 'BA / BB_', 'mod': 'BA % BB_', 'neg': '-BA', 'abs': 'xsimd::abs(BA)',
+    'min': 'xsimd::min(BA, BB_)', 'max': 'xsimd::max(BA, BB_)', 'sadd': 'xsimd::sadd(BA, BB_)', 'ssub': 'xsimd::ssub(BA, BB_)',
+    'avg': 'xsimd::avg(BA, BB_)', 'avgr': 'xsimd::avgr(BA, BB_)', 'incr': 'xsimd::incr(BA)', 'decr': 'xsimd::decr(BA)',
+    'incr_if': 'xsimd::incr_if(BA, MB)', 'decr_if': 'xsimd::decr_if(BA, MB)',
+    'and': 'BA & BB_', 'or': 'BA | BB_', 'xor': 'BA ^ BB_', 'not': '~BA', 'andnot': 'xsimd::bitwise_andnot(BA, BB_)',
+    'shl': 'BA << b', 'shr': 'BA >> b', 'rotl': 'xsimd::rotl(BA, b)', 'rotr': 'xsimd::rotr(BA, b)',
+    'fma': 'xsimd::fma(BA, BB_, BC)', 'fms': 'xsimd::fms(BA, BB_, BC)', 'fnma': 'xsimd::fnma(BA, BB_, BC)', 'fnms': 'xsimd::fnms(BA, BB_, BC)',
+    'clip': 'xsimd::clip(BA, BB_, BC)', 'select': 'xsimd::select(MA, BB_, BC)',
+    'is_flint': None, 'is_even': None, 'is_odd': None,
+}
+
+
+def _sigargs(sig, ty):
+    out = []
+    for ch in sig:
+        if ch == 'T': out.append(('T', ty))
+        elif ch == 'b': out.append(('b', None))
+        elif ch == 's': out.append(('s', None))
+    return out
+
+
+def c17(tier, diff_archs):
+    ks = []
+    for ty in ATYPES:
+        ct, w, sg, cls = TYPES[ty]
+        table = C17_INT if cls == 'int' else C17_FP
+        for op, sig, expr in table:
+            ks.append(Kernel('C17', op, ty, 'scalar', _sigargs(sig, ty), ('T', ty), '(%s)(%s)' % (ct, expr), meta={'sig': sig}))
+        for op, expr in C17_CMP:
+            ks.append(Kernel('C17', op, ty, 'scalar', _sigargs('TT', ty), ('bool', None), expr, meta={'sig': 'TT'}))
+        if cls == 'fp':
+            for op in ('is_flint', 'is_even', 'is_odd'):
+                ks.append(Kernel('C17', op, ty, 'scalar', [('T', ty)], ('bool', None), 'xsimd::%s(a)' % op, meta={'sig': 'T'}))
+            it = IT[w]
+            ks.append(Kernel('C17', 'nearbyint_as_int', ty, 'scalar', [('T', ty)], ('T', it), 'xsimd::nearbyint_as_int(a)', meta={'sig': 'T'}))
+        for t2 in ATYPES:
+            if t2 != ty and TYPES[t2][1] == w:
+                ks.append(Kernel('C17', 'bitwise_cast', ty, 'scalar', [('T', ty)], ('T', t2), 'xsimd::bitwise_cast<%s>(a)' % TYPES[t2][0], variant=t2, meta={'sig': 'T', 'to': t2}))
+        # scalar-vs-lane differential on real batch architectures: out[0] = scalar overload, out[1] = lane 0 of the batch operation on broadcast operands
+        for arch in diff_archs:
+            b = B(ty, arch); bb = BB(ty, arch)
+            for op, sig, expr in table:
+                bexpr = C17_DIFF.get(op)
+                if bexpr is None: continue
+                if cls == 'fp' and op in ('fma', 'fms', 'fnma', 'fnms'): continue     # fused (std::fma) vs unfused (mul+add archs) is allowed latitude: held to the spec separately
+                pre = '%s BA(a);' % b
+                if sig.count('T') >= 2 or (sig == 'bTT'): pre += ' %s BB_(b);' % b
+                if sig in ('TTT', 'bTT'): pre += ' %s BC(c);' % b
+                if sig == 'Tb': pre += ' %s MB(b);' % bb
+                if sig == 'bTT': pre = '%s MA(a); %s BB_(b); %s BC(c);' % (bb, b, b)
+                names = 'abc'[:len(sig)]
+                body = '%s out[0] = (%s)(%s); out[1] = (%s).get(0);' % (pre, ct, expr, bexpr)
+                k = Kernel('C17', 'diff_' + op, ty, arch, _sigargs(sig, ty) + [('x', '%s* out' % ct)], ('void', None), body, meta={'sig': sig, 'diff': op})
+                ks.append(k)
+            if cls == 'fp':
+                body = '%s BA(a); out[0] = xsimd::pow(a, b); out[1] = xsimd::pow(BA, b).get(0);' % b
+                ks.append(Kernel('C17', 'diff_pow_int', ty, arch, [('T', ty), ('s', None), ('x', '%s* out' % ct)], ('void', None), body, meta={'sig': 'Ts', 'diff': 'pow_int'}))
+    return ks
